@@ -290,6 +290,51 @@ pub fn run(run: &Run) {
             "fixpoint": stats.fixpoint, "level_sizes": stats.level_sizes,
             "alphabet": {"csids_and_forms": sl.csids, "types": sl.types, "msids": sl.msids, "timestamps": sl.tss, "payload_lens": sl.lens, "set_chunk_sizes": sl.setchunks}}));
     }
+    // every message type id on one chunk stream: fmt 0, then fmt 1 with another type, fmt 1 back, fmt 2, fmt 3
+    {
+        let sl = Slice { name: "all type ids, csid 3", csids: vec![(3, 1)], types: vec![], msids: vec![1], tss: vec![], lens: vec![], setchunks: vec![], init_chunk: 2 };
+        let g = G { slice: sl.clone(), c: Counters::new(&NAMES) };
+        let init0 = St { enc: SpecEncoder::new(), de: ChunkDeserializer::new() };
+        let a0 = Act { csid: 2, form: 1, fmt: 0, ty: 1, msid: 0, ts: 0, len: 2 };
+        if let Some(init) = g.step(&init0, &a0).succ.into_iter().next() {
+            let mut scripts = 0u64;
+            for t in 0..=255u8 {
+                if t == 1 {
+                    continue;
+                }
+                for partner in [t.wrapping_add(1), 20, 2] {
+                    if partner == 1 || partner == t {
+                        continue;
+                    }
+                    let script = vec![
+                        Act { csid: 3, form: 1, fmt: 0, ty: t, msid: 1, ts: 0, len: 3 },
+                        Act { csid: 3, form: 1, fmt: 1, ty: partner, msid: 1, ts: 5, len: 3 },
+                        Act { csid: 3, form: 1, fmt: 1, ty: t, msid: 1, ts: 10, len: 3 },
+                        Act { csid: 3, form: 1, fmt: 2, ty: t, msid: 1, ts: 15, len: 3 },
+                        Act { csid: 3, form: 1, fmt: 3, ty: t, msid: 1, ts: 20, len: 3 },
+                    ];
+                    let mut cur = init.clone();
+                    let mut done: Vec<Value> = vec![g.describe(&a0)];
+                    for a in script.iter() {
+                        let o = g.step(&cur, a);
+                        ti += o.impl_steps;
+                        tt += 1;
+                        done.push(g.describe(a));
+                        if let Some((sig, d)) = o.viol.into_iter().next() {
+                            run.violation(&sig, &d, json!({"slice": sl.name, "ops": done}));
+                            break;
+                        }
+                        cur = match o.succ.into_iter().next() {
+                            Some(x) => x,
+                            None => break,
+                        };
+                    }
+                    scripts += 1;
+                }
+            }
+            run.count("type_id_scripts", scripts);
+        }
+    }
     run.merge_hist(&agg.map());
     run.set("states", json!(ts));
     run.set("transitions", json!(tt));
